@@ -105,6 +105,15 @@ def main(argv=None):
         run_cases(mod, cases, R)
     else:
         cases = mod.gen_cases(tier, seed)
+        if tier == "thorough":
+            # several rounds of the generators (different seeds); identical cases (the fixed stratified part) are kept once
+            seen = {json.dumps(c, sort_keys=True, default=str) for c in cases}
+            for k in range(1, int(getattr(mod, "THOROUGH_ROUNDS", 1))):
+                for c in mod.gen_cases(tier, seed + 7919 * k):
+                    key = json.dumps(c, sort_keys=True, default=str)
+                    if key not in seen:
+                        seen.add(key)
+                        cases.append(c)
         nshards = args.shards or int(os.environ.get("VERIF_SHARDS") or 0) or min(16, os.cpu_count() or 4)
         nshards = max(1, min(nshards, len(cases)))
         if args.inline or nshards == 1 and getattr(mod, "INLINE_OK", False):
